@@ -75,7 +75,8 @@ def check_last_getters(res, n):
     for i in range(n):
         cfg = wl.gen_cfg(rng)
         ops = wl.gen_ops(rng, cfg, rng.randrange(1, 5), blocks=True, close=False)
-        chdir = os.path.join(work, "g%d" % i, "ch")
+        # the channel path itself may look like the names the writer manipulates (mktemp -d gives /tmp/tmp.XXXX)
+        chdir = os.path.join(work, ["g%d", "tmp.g%d", "rf@%d.000.h5", "tmp.rf@%d.h5"][i % 4] % i, ["ch", "tmp.ch"][(i // 4) % 2])
         reports, w = wl.run_impl(cfg, ops, chdir)
         m = wl.abs_of_history(cfg, ops, reports)
         hist = {"cfg": cfg.as_dict(), "ops": [list(op) for op in ops]}
